@@ -170,6 +170,46 @@ def run(res, ctx):
                 want = sum(1 for r in mgr.results if getattr(r, attr) == rank)
                 if tot.get(f"{crit}.{rank}", 0) != want:
                     res.violation("a total count differs from the number of findings of that rank", {"key": f"{crit}.{rank}", "total": tot.get(f"{crit}.{rank}"), "findings": want})
+        # ---- two nosec comments on the lines of ONE finding (the reported line and another line of the statement): one finding is withheld, the counters go up
+        #      by one (seeded change C12-m9 consulted the two comments one after the other and counted the finding once per comment)
+        from bandit.core import config as b_config, manager as b_manager
+        two = ["import subprocess\nsubprocess.call(cmd,  # nosec\n                shell=True)  # nosec\n",
+               "import subprocess\nsubprocess.call(cmd,  # nosec B602\n                shell=True)  # nosec B602\n",
+               "import subprocess\nsubprocess.Popen('ls',  # nosec\n    env=e,\n    shell=True)  # nosec B602, B607\n",
+               "from flask import Flask\napp = Flask(__name__)\napp.run(host=h,  # nosec B201\n        debug=True)  # nosec B201\n",
+               "import requests\nrequests.get(url,  # nosec\n             verify=False)  # nosec\n",
+               "import subprocess\nsubprocess.call(cmd,  # nosec B101\n                shell=True)  # nosec B602\n"]
+        for src2 in two:
+            pth = scratch.fresh("two.py", src2.encode())
+            outs = {}
+            for ign in (False, True):
+                mgr = b_manager.BanditManager(b_config.BanditConfig(), "file", ignore_nosec=ign)
+                mgr.discover_files([pth]); mgr.run_tests(); C.take_log()
+                outs[ign] = (len(mgr.results), mgr.metrics.data["_totals"].get("nosec", 0), mgr.metrics.data["_totals"].get("skipped_tests", 0))
+            res.case(("two-comments-one-finding", src2), True)
+            res.count("two-comments-one-finding")
+            withheld = outs[True][0] - outs[False][0]
+            if outs[False][1] + outs[False][2] != withheld:
+                res.violation("nosec + skipped_tests differ from the number of withheld findings (two nosec comments on the lines of one finding)",
+                              {"program": src2, "withheld": withheld, "nosec": outs[False][1], "skipped_tests": outs[False][2]})
+        # ---- a run over more files than the progress threshold (50): totals are still the sums over the files (seeded change C12-m10 aggregated every 50
+        #      files, and aggregate() folds the previous totals block in again)
+        many = os.path.join(scratch.root, "many"); os.makedirs(many)
+        bodies = ["import pickle\nassert x\n", "x = 1\n# c\n\ny = 2\n", "import subprocess\nsubprocess.Popen(c, shell=True)  # nosec\n", "password = 'pw'\neval(e)  # nosec B307\n"]
+        for nfiles in ((51, 120) if thorough else (51, 103)):
+            dd = os.path.join(many, str(nfiles)); os.makedirs(dd)
+            for i in range(nfiles):
+                with open(os.path.join(dd, "f%03d.py" % i), "w") as fh:
+                    fh.write(bodies[i % len(bodies)])
+            mgr = b_manager.BanditManager(b_config.BanditConfig(), "file")
+            mgr.discover_files([dd], True); mgr.run_tests(); C.take_log()
+            tot = mgr.metrics.data["_totals"]
+            blocks = [v for k, v in mgr.metrics.data.items() if k != "_totals"]
+            res.case(("many-files", nfiles), True)
+            res.count("many-files")
+            bad = {k: [tot.get(k, 0), sum(b.get(k, 0) for b in blocks)] for k in set(tot) | {k for b in blocks for k in b} if tot.get(k, 0) != sum(b.get(k, 0) for b in blocks)}
+            if bad or len(blocks) != nfiles:
+                res.violation("totals differ from the sums over the files in a run over more than 50 files", {"files": nfiles, "file_bodies (round robin)": bodies, "[total, sum] per key": bad, "blocks": len(blocks)})
         # ---- the metrics a REPORT carries: whatever thresholds (-l/-i) or baseline (-b) restrict the listed findings, the counts are those of the findings found
         #      before filtering, per file and in total (seeded change C12-m8 re-tallied the totals from the filtered list just before the formatter ran)
         import json as _json
